@@ -8,6 +8,13 @@ use rayon::prelude::*;
 use serde_json::json;
 use std::sync::atomic::{AtomicU64, Ordering};
 
+/// machine-readable program for replays (omitted for very large programs)
+pub fn tjson(t: &T) -> serde_json::Value {
+    match serde_json::to_value(t) {
+        Ok(v) if v.to_string().len() < 200_000 => v,
+        _ => serde_json::Value::Null,
+    }
+}
 fn short(t: &T) -> String {
     let s = format!("{:?}", t);
     if s.len() > 300 {
@@ -51,7 +58,7 @@ fn check_one(ctx: &Ctx, who: &str, family: &'static str, t: &T) {
     let bytes = match catch(|| real(t)) {
         Ok(b) => b,
         Err(m) => {
-            ctx.violation_sized(&format!("aml:{}:panic", who), 0, || format!("{} [{}]: building/serialising panicked: {} ; program {}", who, family, m, short(t)), || json!({"family":"aml","ctor":who,"program":short(t)}));
+            ctx.violation_sized(&format!("aml:{}:panic", who), 0, || format!("{} [{}]: building/serialising panicked: {} ; program {}", who, family, m, short(t)), || json!({"family":"aml","ctor":who,"program":short(t),"t":tjson(t)}));
             return;
         }
     };
@@ -66,7 +73,7 @@ fn check_one(ctx: &Ctx, who: &str, family: &'static str, t: &T) {
                 &format!("aml:{}:parse", who),
                 size,
                 || format!("{} [{}]: emitted bytes do not parse: {} ; bytes {} ; program {}", who, family, why, hex(&bytes[..bytes.len().min(48)]), short(t)),
-                || json!({"family":"aml","ctor":who,"program":short(t),"bytes":hex(&bytes[..bytes.len().min(256)])}),
+                || json!({"family":"aml","ctor":who,"program":short(t),"t":tjson(t),"bytes":hex(&bytes[..bytes.len().min(256)])}),
             );
         }
         Ok(ns) => {
@@ -79,7 +86,7 @@ fn check_one(ctx: &Ctx, who: &str, family: &'static str, t: &T) {
                         let w = format!("{:?}", want);
                         format!("{} [{}]: parsed tree differs from the program: got {} want {} ; bytes {}", who, family, &got[..got.len().min(300)], &w[..w.len().min(300)], hex(&bytes[..bytes.len().min(48)]))
                     },
-                    || json!({"family":"aml","ctor":who,"program":short(t),"bytes":hex(&bytes[..bytes.len().min(256)])}),
+                    || json!({"family":"aml","ctor":who,"program":short(t),"t":tjson(t),"bytes":hex(&bytes[..bytes.len().min(256)])}),
                 );
             }
         }
@@ -120,6 +127,15 @@ pub fn run(ctx: &'static Ctx) {
         for l in &lists {
             check(ctx, &c.name, "root x lists(F, <=3)", &(c.build)(l.clone()));
             n1.fetch_add(1, Ordering::Relaxed);
+        }
+    });
+    // longer child lists: k copies of a filler for k up to 16 and at 64, 254, 255 (Package counts one byte)
+    lcs.par_iter().for_each(|c| {
+        for k in (4..=16usize).chain([64, 254, 255]) {
+            for x in [&f[1], &f[5], &f[7]] {
+                check(ctx, &c.name, "root x k copies", &(c.build)(vec![x.clone(); k]));
+                n1.fetch_add(1, Ordering::Relaxed);
+            }
         }
     });
     let leaves = gen::leaves();
